@@ -172,6 +172,7 @@ var sections []*section
 func register(s *section) { sections = append(sections, s) }
 
 func TestCheck(t *testing.T) {
+	vk.UseT(t)
 	r := vk.Start("C18", "model_checking", 70*time.Second, 8*time.Minute)
 	c := newChk(r)
 	for _, s := range sections {
